@@ -9,7 +9,10 @@ import c13_shards as SH
 
 LEVEL = "exploration"
 FUZZ_FLAGS = ("-DVF_FUZZ=1",)
-BUILDS = [("c13_json", "asan"), ("c13_json", "fuzz", FUZZ_FLAGS)]
+# -O0 (overrides the flavor's -O1): the optimiser deletes dead out-of-bounds loads before ASan can see them (a cursor
+# reading one byte past the input whose value is not used), without optimisation every source-level read is checked
+ASAN_FLAGS = ("-O0",)
+BUILDS = [("c13_json", "asan", ASAN_FLAGS), ("c13_json", "fuzz", FUZZ_FLAGS)]
 PROP = "C13"
 
 # linear-cost guard on thread CPU time of one parse (asan build): generous, and only a *reproduced*
@@ -565,7 +568,7 @@ def run_fuzz(ctx, runs_per_job, jobs):
 # ------------------------------------------------------------------------------- entry points
 def run(ctx):
     thorough = ctx.tier == "thorough"
-    binary = vf.build("c13_json", "asan")
+    binary = vf.build("c13_json", "asan", ASAN_FLAGS)
     if thorough:
         vf.build("c13_json", "fuzz", FUZZ_FLAGS)
     scale = 100 if thorough else 1
@@ -622,7 +625,7 @@ def replay(ctx, path):
     if not line:
         ctx.inconcl("replay file carries no case line")
         return
-    binary = vf.build("c13_json", "asan")
+    binary = vf.build("c13_json", "asan", ASAN_FLAGS)
     s = SH.S()
     recs, events = SH.run_cases(binary, [line], ctx.tmp, "replay")
     kind = line[0]
